@@ -117,6 +117,7 @@ def gen_knobs(rng, prop, profile):
         "evict_on_startup": rng.random() < 0.15,
         "val_style": wchoice(rng, [(60, "bool"), (20, "numpy"), (20, "int")]),
         "relative_path": rng.random() < 0.12,
+        "second_cache": rng.random() < 0.35,  # (module-level API only) a second named cache in the same process
         "tmp_other_device": rng.random() < 0.5,  # is the system temp directory on another file system?
         "tilde_path": rng.random() < 0.06,
         "ret_style": wchoice(rng, [(75, "true"), (25, "none")]),
@@ -143,6 +144,8 @@ def gen_ops(rng, prop, knobs, profile):
         weights += [(rng.choice([0, 0, 3]), "RES_UPDATE")]
     if knobs.get("relative_path") and knobs.get("api") == "module":
         weights += [(6, "CHDIR")]
+    if knobs.get("second_cache") and knobs.get("api") == "module":
+        weights += [(8, "OTHER_GET")]
     ops = []
     dts = [0, 1000, 10**6, 10**9, 3600 * 10**9]
     big = knobs.get("big_requests")
@@ -174,6 +177,8 @@ def gen_ops(rng, prop, knobs, profile):
                 op["val"] = [rng.choice([None, None, True, False]) for _ in range(m)]
             if m == 1 and rng.random() < 0.3:
                 op["as_str"] = True
+            elif rng.random() < 0.1:
+                op["shape"] = rng.choice(["tuple", "generator"])
         elif kind in ("REMOVE", "TOUCH", "USER_READ"):
             op["key"] = rng.randrange(K)
         elif kind == "AGE":
@@ -190,6 +195,8 @@ def gen_ops(rng, prop, knobs, profile):
             op["name"] = rng.choice(FOREIGN_NAMES)
             op["size"] = rng.choice([0, 10, 5000])
             op["age"] = rng.choice([0, -86400 * 10**9 * 30])
+        elif kind == "OTHER_GET":
+            op["keys"] = rng.sample(range(K), min(K, rng.randint(1, 3)))
         elif kind == "CHDIR":
             op["to"] = rng.choice(["cwd2", "cwd/sub", "elsewhere"])
         elif kind == "EDIT_CONFIG":
